@@ -299,7 +299,7 @@ def process (st : State) (line : String) : State × String :=
     match parseGeo a b c, pen.toNat? with
     | some g, some p =>
       let m := Mem.Mem.empty Mem.riscvCfg
-      if pol = "forced" then
+      if pol.startsWith "forced" then
         ({ st with dc := some (.forced (Cache.DSys.init Cache.forcedOps (ty = "wt") g p m)) }, "ok")
       else
         let l := pol = "lru"
